@@ -147,8 +147,14 @@ def readcodescilab_complex(numtype, shape, endianness,
                          endianness=endianness,
                          filepath=filepath, varname=varname)
     dimstr = ",:" * ndim
-    ct += f'{varname} = complex(squeeze({varname}(1{dimstr})),squeeze' \
-          f'({varname}(2{dimstr})));\n'
+    if ndim > 1:
+        # squeeze would remove all axes of length 1, not only the first one
+        dims = list(shape)[::-1]
+        ct += f'{varname} = complex(matrix({varname}(1{dimstr}), {dims}),' \
+              f'matrix({varname}(2{dimstr}), {dims}));\n'
+    else:
+        ct += f'{varname} = complex(squeeze({varname}(1{dimstr})),squeeze' \
+              f'({varname}(2{dimstr})));\n'
     return ct
 
 
